@@ -4,6 +4,7 @@ from .c02 import VS
 from utpsa.flow import controlling_edges, describe_cond
 from utpsa.bounds import Bounds, fmt as fmt_ub
 from utpsa.discr import DiscrTracker, discr_key
+from utpsa.prov import upvar_origin
 
 PIM = VS + "::process_incoming_message"
 LCR = "VirtualSocket.last_consumed_remote_seq_nr"
@@ -52,8 +53,8 @@ def c04_1(R):
             R.fail([owner_fn(b), "send_control_packet", "header-source=" + tr.describe()], "send_control_packet called with a header that is not the result of outgoing_header()", where=t.where(), instance="sent-header<-outgoing_header")
     R.floor("send_control_packet call sites", n, 3)
     stq = R.body(VS + "::send_tx_queue")
-    hl = [i for i, l in enumerate(stq.locals) if l["name"] == "header" and "UtpHeader" in l["ty"]]
-    R.require(len(hl) == 1, "local `header` in send_tx_queue")
+    hl = [i for i, l in enumerate(stq.locals) if l["ty"] == "raw::UtpHeader" and l["user"] and stq.all_defs(i)]
+    R.require(len(hl) == 1, "the one UtpHeader local of send_tx_queue")
     d = stq.all_defs(hl[0])
     if len(d) == 1 and isinstance(d[0], Term) and call_matches(d[0], (VS + "::outgoing_header",)):
         R.ok("sent-header<-outgoing_header", stq.name, "ST_DATA header <- outgoing_header()")
@@ -64,7 +65,8 @@ def c04_1(R):
         for t in c.calls():
             if call_matches(t, ("raw::UtpHeader::serialize",)):
                 tr = trace(c, t.args[0])
-                if tr.kind == "upvar" and tr.root[1] == "header":
+                uo = upvar_origin(c, tr.root[1]) if tr.kind == "upvar" else None
+                if uo is not None and uo[0] == "local" and uo[1] == hl[0] and uo[2].name == stq.name:
                     R.ok("sent-header<-outgoing_header", "send_data! closure", "serializes the captured `header`")
                 else:
                     R.fail([owner_fn(c), "send_data", "serialize-source=" + tr.describe()], "a send_data! expansion serializes a header other than the captured outgoing header", where=t.where(), instance="sent-header<-outgoing_header")
@@ -324,7 +326,7 @@ def c04_4(R):
             cap = None
             for s2 in ub_.stmts():
                 pass
-            if ("param", "max_rx_bytes") in src:
+            if ("param", 1) in src:  # UserRx::build(max_rx_bytes, max_incoming_payload)
                 R.ok("last_remaining_rx_window-init", ub_.name, "= max_rx_bytes (the MsgQueue capacity)")
             else:
                 R.fail([ub_.name, "init(UserRx.last_remaining_rx_window)", "sources=" + sources_str(ub_, s.rv.ops[i])], "initial window is not the configured receive buffer size", where=s.where(), instance="last_remaining_rx_window-init")
@@ -342,13 +344,15 @@ def c04_5(R):
         ok = False
         for tt, tgt, lab in controlling_edges(tp, t.bb):
             c, neg = switch_cond(tp, tt)
-            if c.kind == "bin" and c.op == "Lt":
-                sa = value_sources(tp, c.a)
-                sb = value_sources(tp, c.b)
-                pol = (lab[1] != 0) if lab[0] == "val" else (0 in lab[1])
-                if neg:
-                    pol = not pol
-                if {("field", "MsgQueue.capacity"), ("field", "MsgQueue.len_bytes")} <= sa and any(x[0] == "call" and x[1].endswith("len_bytes") for x in sb) and not pol:
+            pol = (lab[1] != 0) if lab[0] == "val" else (0 in lab[1])
+            if neg:
+                pol = not pol
+            o = ordering(c, pol)
+            if o is not None:
+                # len <= capacity - len_bytes
+                sa = value_sources(tp, o[1])
+                sb = value_sources(tp, o[0])
+                if {("field", "MsgQueue.capacity"), ("field", "MsgQueue.len_bytes")} <= sa and any(x[0] == "call" and x[1].endswith("len_bytes") for x in sb):
                     ok = True
         if ok:
             R.ok("push=>fits-capacity", tp.name, "push only when !(capacity - len_bytes < len)")
@@ -359,7 +363,14 @@ def c04_5(R):
     R.floor("pop_front in send_front_if_fits", len(pops), 1)
     for t in pops:
         conds = sorted(describe_cond(sf, tt, lab) for tt, tgt, lab in controlling_edges(sf, t.bb))
-        fits = any(c.startswith("bin:Gt(call:OoqMessage::len_bytes,param:window)=false") or c.startswith("bin:Le(call:OoqMessage::len_bytes,param:window)=true") or c.startswith("bin:Lt(param:window,call:OoqMessage::len_bytes)=false") or c.startswith("bin:Ge(param:window,call:OoqMessage::len_bytes)=true") for c in conds)
+        fits = False
+        for c_, truth_, d_, *_ in controlling(sf, t.bb):
+            o_ = ordering(c_, truth_)
+            if o_ is not None:
+                lo_, hi_ = trace(sf, o_[0]), trace(sf, o_[1])
+                # reached iff len_bytes(front) <= window ; send_front_if_fits(self, window, send_fn)
+                if lo_.kind == "call" and call_matches(lo_.root[1], ("OoqMessage::len_bytes",)) and hi_.kind == "param" and hi_.root[1] == 2 and not hi_.fields:
+                    fits = True
         nonempty = any("OutOfOrderQueue.filled_front" in c for c in conds)
         if fits and nonempty:
             R.ok("flush=>fits-window", sf.name, ",".join(conds))
